@@ -881,8 +881,35 @@ func (u *unit) stepCall(f *ssa.Function, call *ssa.Call, c *ssa.CallCommon, out 
 		}
 		return
 	}
-	if x := extKind(callee); x != nil && x.aliasResult && len(c.Args) > 0 {
+	x := extKind(callee)
+	if x != nil && x.aliasResult && len(c.Args) > 0 {
 		out.addAll(u.get(c.Args[0]))
+	}
+	if x != nil && x.syncCallback {
+		// a callback over the table (maps.DeleteFunc) receives the table's records: its
+		// record-typed parameters are guarded values of the same owner
+		for _, arg := range c.Args {
+			mc, ok := u.resolve(arg).(*ssa.MakeClosure)
+			if !ok {
+				continue
+			}
+			cf, ok := mc.Fn.(*ssa.Function)
+			if !ok || !u.inUnit[cf] {
+				continue
+			}
+			for _, src := range c.Args {
+				for t := range u.get(src) {
+					if t.Boxed || t.K != KMap {
+						continue
+					}
+					for _, p := range cf.Params {
+						ts := TSet{}
+						u.byType(p.Type(), t.Root, ts)
+						u.set(p, ts)
+					}
+				}
+			}
+		}
 	}
 }
 
@@ -1119,6 +1146,9 @@ var extTable = map[string]*extContract{
 	"slices.Sort": {reads: true, writes: true}, "slices.SortFunc": {reads: true, writes: true, syncCallback: true},
 	"slices.SortStableFunc": {reads: true, writes: true, syncCallback: true}, "slices.Reverse": {reads: true, writes: true},
 	"sort.Slice": {reads: true, writes: true, syncCallback: true}, "sort.SliceStable": {reads: true, writes: true, syncCallback: true},
+	// maps.DeleteFunc(m, del) is `for k, v := range m { if del(k, v) { delete(m, k) } }`: it reads and
+	// writes the table, calls del before returning and keeps neither the map nor the callback
+	"maps.DeleteFunc": {reads: true, writes: true, syncCallback: true},
 }
 
 func extName(fn *ssa.Function) string {
